@@ -10,7 +10,9 @@ AddrPairs == {<<a, b>> \in Addrs \X Addrs : a = <<198, 51, 100, 9>> \/ b = <<10,
 PortPairs == {<<p, q>> \in Ports \X Ports : p = 33434 \/ q = 255 \/ p = q}
 Tuple(a, p) == [name |-> "tcp", ftype |-> 3, src |-> a[1], dst |-> a[2], sport |-> p[1], dport |-> p[2]]
 Static(n, t) == [name |-> n, ftype |-> t, src |-> <<0, 0, 0, 0>>, dst |-> <<0, 0, 0, 0>>, sport |-> 0, dport |-> 0]
-Configs == {Static("icmp", 1), Static("udp", 2), Static("synack", 4), Static("dropall", -1)}
+\* ftype -2, -3, -4: interpreter self-test programs of the harness (every opcode class of classic BPF); they bind Bpf.tla's
+\* interpreter to the real x/net/bpf VM beyond the opcodes the repository's programs use today
+Configs == {Static("icmp", 1), Static("udp", 2), Static("synack", 4), Static("dropall", -1), Static("selftest", -2), Static("selftest", -3), Static("selftest", -4)}
            \cup {Tuple(a, <<33434, 40000>>) : a \in AddrPairs} \cup {Tuple(<<<<198, 51, 100, 9>>, <<10, 77, 0, 1>>>>, p) : p \in PortPairs}
 ASSUME JsonSerialize(IOEnv.VT_OUT, SetToSeq(Configs)) /\ PrintT(<<"GEN", "bpfcfg", Cardinality(Configs), Cardinality(Configs)>>)
 VARIABLE x
